@@ -36,7 +36,7 @@ REAL = ["cdd modules (working tree)", "CPython import system", "real fresh inter
 STUBBED = ["process restart in the bulk pair/sequence exploration (sys.modules purge)"]
 ANCHORS = ("cdd.class_.parse", "cdd.function.parse", "cdd.shared.parse.utils.parser_utils",
            "cdd.shared.docstring_parsers", "cdd.function.emit", "cdd.shared.ast_utils")
-TASK_TIMEOUT = {"quick": 600, "thorough": 3000}
+TASK_TIMEOUT = {"quick": 900, "thorough": 5400}
 MAX_REPORT = 8
 
 CHILD = r"""
